@@ -73,7 +73,8 @@ def frame(ds, start, sizes, nullrgs=(), pshift=0):
                        "c": pd.Categorical([["x", "y", "z"][i % 3] for i in ids], categories=["x", "y", "z"]),
                        "t": pd.Series(pd.to_datetime(1_600_000_000 + ids, unit="s")).dt.tz_localize("UTC").dt.tz_convert("Europe/Berlin")})
     if ds["part"]:
-        df["p"] = [int(i) % 3 + pshift for i in ids]
+        # spaced labels: appended rows (pshift != 0) bring NEW partition values that sort BETWEEN the existing ones
+        df["p"] = [(int(i) % 3) * 3 + pshift for i in ids]
     return df
 
 
@@ -271,7 +272,7 @@ def gen_program(rng, ds, nsteps=None, aim=None):
             prog.append(["mutate", 0, "remove", {"idx": [0]}])
             tgt = 0
         else:
-            prog.append(["mutate", 0, "append", {"sizes": [4], "start": base, "nullrgs": [0], "pshift": 5}])
+            prog.append(["mutate", 0, "append", {"sizes": [4], "start": base, "nullrgs": [0], "pshift": 1}])
             tgt = 0
             base += 100
         prog += [[s[0], tgt] + s[2:] for s in first] + [["obs", tgt, "head", {"n": 4}], ["obs", tgt, "pickled_twin", None], ["obs", tgt, "info", None]]
@@ -299,7 +300,7 @@ def gen_program(rng, ds, nsteps=None, aim=None):
             sizes = [rng.choice([1, 2, 3, 5]) for _ in range(rng.choice([1, 1, 2, 3]))]
             if k < 0.45:
                 prog.append(["mutate", h, "append", {"sizes": sizes, "start": base, "nullrgs": [0] if rng.random() < 0.4 else [],
-                                                    "pshift": rng.choice([0, 0, 5, -4, 2])}])
+                                                    "pshift": rng.choice([0, 0, 1, 2, -1])}])
                 prog += [list(o) for o in rng.sample(asked.get(h, []), min(3, len(asked.get(h, []))))] + [["obs", h, "to_pandas", None]]
                 base += 100
                 nrg += len(sizes)
